@@ -43,6 +43,7 @@ type RunOpts struct {
 	RealDir string // pass-through mode: real directory
 	DeepReads bool // run the C03/C11 read oracles after every op (sequential scenarios)
 	DeepRefsFor bool
+	Porcupine bool // black-box linearizability cross-check of the call history (C04)
 	Hook    func(w *World) // called after the world is built
 }
 
@@ -69,6 +70,7 @@ func Execute(spec *RunSpec, opts RunOpts) *RunResult {
 	w.DeepReads = opts.DeepReads
 	w.CrashEnum = spec.Scenario == "S-CRASH-ENUM" || spec.Scenario == "S-CRASH-RAND"
 	w.DeepRefsFor = opts.DeepRefsFor
+	w.Porcupine = opts.Porcupine
 	for _, f := range spec.Faults {
 		if f.Kind == simrt.FaultClockJump || f.Kind == simrt.FaultSlow {
 			w.TimeFaults = true
@@ -134,6 +136,9 @@ func Execute(spec *RunSpec, opts RunOpts) *RunResult {
 		w.notePanics([]*simrt.Task{final})
 	}
 	sim.KillAll()
+	if w.Porcupine && !sim.Budget && (w.StopOn == "" || !w.hasViolation(w.StopOn)) {
+		w.checkLinearizable()
+	}
 	// release descriptors of handles that are still open (real backend)
 	res := &RunResult{Spec: spec, Violations: w.Violations, Probes: w.Probes, Steps: sim.Steps, Events: sim.EventCount(),
 		SimTimeNS: sim.Now, LogHash: fmt.Sprintf("%016x", sim.Hash), Interleave: w.interleave, States: len(w.stateSet),
